@@ -734,6 +734,29 @@ def run_case(case, col, verbose=False):
     col.outcome("mapping", "superset", tuple(np.asarray(s.treatment_ids).ravel().tolist()), tuple(np.asarray(s.sample_ids).tolist()))
     res = judge_screen(spec, control, s, supplied_t=tm, supplied_s=sm)
     _flag(col, case, res, head)
+    if res:
+        return
+    # history: the caller keeps using ITS arrays (renumbers its registry, renames an entry) after the screen was built from
+    # private, writable copies of them; the screen's own mapping - and with it the decoding of its ids - must not follow
+    tm2 = None if tm is None else tuple(np.array(a, copy=True) for a in tm)
+    sm2 = None if sm is None else tuple(np.array(a, copy=True) for a in sm)
+    try:
+        s2 = build(spec, control, treatment_mapping=tm2, sample_mapping=sm2)
+    except Exception:  # noqa: BLE001
+        return
+    snap = [np.array(a, copy=True) for a in tuple(s2.treatment_mapping) + tuple(s2.sample_mapping)]
+    for a in (tm2 or ()) + (sm2 or ()):
+        if a.dtype.kind in "iu":
+            a += 1
+        elif a.dtype.kind == "f":
+            a *= 3.0
+        elif a.size:
+            a[...] = "zz"
+    col.evaluations += 1
+    now = list(tuple(s2.treatment_mapping) + tuple(s2.sample_mapping))
+    if any(x.shape != y.shape or x.tolist() != y.tolist() for x, y in zip(snap, now)):
+        col.violation("C01|mapping|follows-callers-arrays", f"{head}: after the caller edited the arrays it had supplied, the screen's own mappings changed "
+                                                            f"(its ids no longer decode to its experiments)", case)
 
 
 def _archive_variant(spec, control, tm, sm, mtype, mp, head, case, col):
